@@ -11,7 +11,7 @@ CHECKS = {
                         "both parent-hash formats selected through the real codec globals; exploration only: sizes above 300 and challenge-proof leaves are not generated.",
              level_note="Generation and verification are two code paths of the same package (round trip), so a mistake shared by both (e.g. the same wrong hash input on both sides) is invisible; "
                         "the level count is restated as ceil(log2 n) exactly as ValidateProof computes it. Trusts blake2b/sha3 and rapid."),
-    "C30": c("pocketpure", "TestC30", dict(checks=5000, timeout=400), dict(checks=20000, shards=14, timeout=1500),
+    "C30": c("pocketpure", "TestC30", dict(checks=4000, timeout=400), dict(checks=20000, shards=14, timeout=1500),
              technique="mutation-based property testing (rapid): every single-field mutation of a valid (root, proof, leaf) triple must fail MerkleProof.Validate; "
                        "duplicate-relay multisets against a hash-free model of empty ranges; replay path through a real keeper and message handler with stub pos/apps keepers",
              design_ref="DESIGN.md §7 C30",
